@@ -373,7 +373,7 @@ class C17(Property):
         except Exception:  # noqa
             return
         rng = fill
-        lockname = {"FFF": "none", "TFF": "E", "FTF": "G", "TTF": "EG"}.get(init["locks"], "with-S")
+        lockname = init["locks"]  # the exact lock string (extent, gpts, sampling)
         done = []
         state = dict(init=init, done=done, tainted=False)
         self.check_state(ctx, state, g, None, None, "ok", lockname, "constructor")
@@ -398,63 +398,91 @@ class C17(Property):
         return all(x > 0 for x in vals)
 
     def check_state(self, ctx, h, g, before, op, out, lockname, opname):
+        """the property's conclusions after one assignment.  Violation keys name the operation, the exact lock string and the
+        observed sub-case; a sub-case that belongs to a recorded finding is only named as such after checking that the state
+        really is what the recorded mechanism produces (otherwise the key ends in `:unexplained`)."""
+        import math
+
         after = snap(g)
         case = dict(init=h["init"], ops=[list(o) for o in h["done"]])
         det = dict(before=before, op=op, outcome=out, after=after)
+        close = lambda a, b: abs(a - b) <= 1e-9 * max(abs(a), abs(b), 1e-300)
         if out != "ok":
             if after != before:
                 ctx.violation(f"raised-but-grid-changed:{opname}:locks={lockname}", case, det)
             return
         if op is not None and not self.in_domain(op):
-            h["tainted"] = True  # outside the guarded domain: consistency is not claimed from here on
-        if h["tainted"]:
-            return
+            ctx.count("oracle:assignment-outside-the-guards-accepted")
+        ep = after["endpoint"]
         ext, gp, sa = after["extent"], after["gpts"], after["sampling"]
         if ext is not None and gp is not None:
             if sa is None:
-                ctx.violation(f"sampling-undefined-on-defined-grid:{opname}:locks={lockname}", case, det)
-            elif any(e and n == 1 for e, n in zip(after["endpoint"], gp)):
-                bad = any(e and n == 1 and abs(r) > 0 for e, n, r in zip(after["endpoint"], gp, ext))
-                if bad:
-                    ctx.violation("inconsistent:endpoint-with-gpts-1", case, det)
-                h["tainted"] = True
-                return
+                mech = before is not None and op is not None and op[0] == "G" and before["sampling"] is None and after["locks"][2] == "T"
+                ctx.violation(f"sampling-undefined-on-defined-grid:{opname}:locks={lockname}" + ("" if mech else ":unexplained"), case, det)
             else:
-                for r, n, d, e in zip(ext, gp, sa, after["endpoint"]):
-                    want = (n - 1) * d if e else n * d
-                    if abs(r - want) > 1e-9 * max(abs(r), abs(want)):
-                        ctx.violation(f"inconsistent:{opname}:locks={lockname}", case, det)
-                        break
-                try:
-                    rec = list(g.reciprocal_space_sampling)
-                    for k, n, d, r, e in zip(rec, gp, sa, ext, after["endpoint"]):
-                        if abs(k - 1 / (n * d)) > 1e-9 * abs(k) or (not e and abs(k - 1 / r) > 1e-9 * abs(k)):
-                            ctx.violation(f"reciprocal-sampling-wrong:{opname}", case, det)
-                            break
-                except Exception as e:  # noqa
-                    ctx.violation(f"reciprocal-sampling-raises:{opname}", case, dict(det, error=repr(e)))
+                bad = [k for k, (r, n, d, e) in enumerate(zip(ext, gp, sa, ep)) if not close(r, (n - 1) * d if e else n * d)]
+                if bad:
+                    one = [k for k in bad if ep[k] and gp[k] == 1 and sa[k] == 0.0 and ext[k] != 0]
+                    zero = [k for k in bad if gp[k] == 0 and sa[k] == 0.0 and ext[k] != 0]
+                    if one and set(bad) <= set(one) | set(zero):
+                        ctx.violation("inconsistent:endpoint-with-gpts-1", case, det)
+                    elif zero and set(bad) <= set(zero):
+                        ctx.violation("inconsistent:gpts-0-with-nonzero-extent", case, det)
+                    else:
+                        ctx.violation(f"inconsistent:{opname}:locks={lockname}", case, dict(det, dims=bad))
+                if all(n * d != 0 for n, d in zip(gp, sa)):
+                    try:
+                        rec = list(g.reciprocal_space_sampling)
+                        for k, n, d, r, e in zip(rec, gp, sa, ext, ep):
+                            if abs(k - 1 / (n * d)) > 1e-9 * abs(k) or (not e and not bad and abs(k - 1 / r) > 1e-9 * abs(k)):
+                                ctx.violation(f"reciprocal-sampling-wrong:{opname}", case, det)
+                                break
+                    except Exception as e:  # noqa
+                        ctx.violation(f"reciprocal-sampling-raises:{opname}", case, dict(det, error=repr(e)))
         if before is None or op is None:
             return
         locks = after["locks"]
+        v = unval(op[1])
+        vals = None if v is None else (list(v) if isinstance(v, tuple) else [v] * after["dims"])
+
+        def ceil_ok(k, r, d):  # gpts[k] is ceil(r/d) (+1 with endpoint), up to the IEEE boundary
+            if d == 0:
+                return False
+            q = r / d
+            want = math.ceil(q) + (1 if ep[k] else 0)
+            return after["gpts"] is not None and (after["gpts"][k] == want or (abs(q - round(q)) < 1e-9 * max(1, abs(q)) and abs(after["gpts"][k] - want) <= 1))
+
         if locks[0] == "T" and before["extent"] is not None:
             if after["extent"] is None:
                 ctx.violation("locked-extent-unset-by-none-assignment", case, det)
             elif not np.allclose(after["extent"], before["extent"], rtol=2e-5, atol=2e-8):
-                ctx.violation(f"locked-extent-changed:{opname}:locks={lockname}", case, det)
+                mech = ""
+                if op[0] == "G" and locks[2] == "T" and before["sampling"] is not None and after["gpts"] is not None:
+                    ok = all(close(r, ((n - 1) if e else n) * d) for r, n, d, e in zip(after["extent"], after["gpts"], before["sampling"], ep))
+                    mech = ":extent-recomputed-from-locked-sampling" if ok else ":unexplained"
+                elif op[0] == "S" and locks[1] == "T" and vals is not None and before["gpts"] is not None:
+                    ok = all(close(r, ((n - 1) if e else n) * d) for r, n, d, e in zip(after["extent"], before["gpts"], vals, ep))
+                    mech = ":extent-recomputed-from-locked-gpts" if ok else ":unexplained"
+                else:
+                    mech = ":unexplained"
+                ctx.violation(f"locked-extent-changed:{opname}:locks={lockname}{mech}", case, det)
         if locks[1] == "T" and before["gpts"] is not None and after["gpts"] != before["gpts"]:
-            ctx.violation(f"locked-gpts-changed:{opname}:locks={lockname}", case, det)
+            ok = (op[0] == "E" and locks[2] == "T" and vals is not None and before["sampling"] is not None
+                  and all(ceil_ok(k, vals[k], before["sampling"][k]) for k in range(after["dims"])))
+            ctx.violation(f"locked-gpts-changed:{opname}:locks={lockname}" + (":gpts-recomputed-from-locked-sampling" if ok else ":unexplained"), case, det)
         if locks[2] == "T" and before["sampling"] is not None and (
                 after["sampling"] is None or not np.allclose(after["sampling"], before["sampling"], rtol=1e-9, atol=0)):
-            ctx.violation(f"locked-sampling-changed:{opname}:locks={lockname}", case, det)
+            ok = (op[0] == "E" and vals is not None and after["sampling"] is not None and after["gpts"] is not None
+                  and all(ceil_ok(k, vals[k], before["sampling"][k]) for k in range(after["dims"]))
+                  and all(close(d * ((n - 1) if e else n), r) or (e and n == 1) or n == 0 for d, n, r, e in zip(after["sampling"], after["gpts"], vals, ep)))
+            ctx.violation(f"locked-sampling-changed:{opname}:locks={lockname}" + (":resampled-to-fit-extent" if ok else ":unexplained"), case, det)
         # the assigned value is what the grid reports afterwards (sampling: at most the requested one when gpts were recomputed)
-        v = unval(op[1])
-        if v is not None:
-            vals = list(v) if isinstance(v, tuple) else [v] * after["dims"]
+        if vals is not None and len(vals) == after["dims"]:
             if op[0] == "E" and not np.allclose(after["extent"], vals, rtol=1e-12, atol=0):
                 ctx.violation(f"assigned-extent-not-kept:locks={lockname}", case, det)
             if op[0] == "G" and after["gpts"] != [int(x) for x in vals]:
                 ctx.violation(f"assigned-gpts-not-kept:locks={lockname}", case, det)
-            if op[0] == "S" and after["sampling"] is not None and any(
+            if op[0] == "S" and self.in_domain(op) and after["sampling"] is not None and all(x > 0 for x in (after["extent"] or [1])) and any(
                     d > x * (1 + 1e-9) for d, x in zip(after["sampling"], vals)):
                 ctx.violation(f"sampling-coarser-than-requested:locks={lockname}", case, det)
 
